@@ -120,3 +120,54 @@ func VerifC14SelfComp() {
 	}
 	verifReach("end")
 }
+
+// C14-O1 (lock-step form): two limiters created at the same instant share one clock
+// history. Limiter 1 sees k requests from sources drawn symbolically from `nsrc` sources
+// (capacity >= nsrc); limiter 2 sees only source A's requests, at the same instants with the
+// same amounts. A's decisions must be identical in both, its buckets must hold the same
+// state afterwards, and nobody else's request may be reflected in limiter 2.
+func VerifC14LockStep() {
+	k := verifParam("k")
+	nsrc := verifParam("nsrc")
+	average := int64(verifParam("average"))
+	burst := int64(verifParam("burst"))
+	verifClockInit("t0")
+	next := &vfOK{}
+	tl := vfNewLimiter(next, time.Second, average, burst, verifParam("capacity"))
+	next2 := &vfOK{}
+	tl2 := vfNewLimiter(next2, time.Second, average, burst, verifParam("capacity"))
+	seenA := false
+	for i := 0; i < k; i++ {
+		_ = verifAdvance(verifName("gap", i), verifParam("maxgap"))
+		var src int
+		if pat := verifParam("srcpat"); pat >= 0 && nsrc == 2 {
+			src = pat >> uint(i) & 1 // one job per pattern of sources
+		} else {
+			sv := verifInt(verifName("src", i))
+			verifAssume(verifAnd(sv >= 0, sv < nsrc))
+			src = verifConcretize(sv, 0, nsrc-1)
+		}
+		amt := verifInt64(verifName("amount", i))
+		verifAssume(verifAnd(amt >= 1, amt <= burst+1)) // burst+1: also requests larger than the burst
+		if src != 0 {
+			vfAmount = amt
+			tl.ServeHTTP(&verifRecorder{}, &http.Request{Host: vfSources[src], Header: http.Header{}})
+			continue
+		}
+		seenA = true
+		vfAmount = amt
+		rec1 := &verifRecorder{}
+		b1 := next.calls
+		tl.ServeHTTP(rec1, &http.Request{Host: vfSources[0], Header: http.Header{}})
+		vfAmount = amt
+		rec2 := &verifRecorder{}
+		b2 := next2.calls
+		tl2.ServeHTTP(rec2, &http.Request{Host: vfSources[0], Header: http.Header{}})
+		verifAssert("decision-independent-of-other-sources", (next.calls == b1+1) == (next2.calls == b2+1))
+		verifAssert("response-independent-of-other-sources", verifAnd(verifAnd(len(rec1.Codes) == 1, len(rec2.Codes) == 1), verifAnd(rec1.code(0) == rec2.code(0), rec1.Header().Get("X-Retry-In") == rec2.Header().Get("X-Retry-In"))))
+	}
+	if seenA {
+		verifReach("a-seen")
+	}
+	verifReach("end")
+}
